@@ -55,7 +55,7 @@ func runC02(ctx *Ctx) {
 		i uint
 	}
 	var cases []li
-	enumStrings([]byte{'a', ' ', '\n', '\r'}, ctx.Budget(6, 8), func(s []byte) {
+	enumStrings([]byte{'a', ' ', '\n', '\r'}, ctx.Len(6, 8), func(s []byte) {
 		c := append([]byte(nil), s...)
 		for i := 0; i <= len(s)+2; i++ {
 			cases = append(cases, li{c, uint(i)})
